@@ -10,8 +10,11 @@ CHECKS = {
         'the model decoder returns exactly that value and exactly the bytes that followed it '
         '(C01_roundtrip, C01_concat), and validation does not change the bytes (C01_validate_irrelevant). '
         'The model is tied to /repo on every run by differential execution of GenericDatumWriter/Reader '
-        'against the extracted model on generated (schema, value) pairs; the property predicate is also '
-        'evaluated directly on the implementation outputs.',
+        'against the extracted model on generated (schema, value) pairs (byte lengths at the varint boundaries included); '
+        'the property predicate is also evaluated directly on the implementation outputs, and the other public entry points '
+        'of the same round trip (to_avro_datum, to_avro_datum_schemata, write_value_to_vec, write_value, from_avro_datum, '
+        'from_avro_datum_schemata) must write the same bytes and read the same value. A schema for which no writer can be '
+        'built (null-namespace names inside a namespace, F26) is a known class.',
    note='hand-written model of encode.rs/decode.rs/util.rs/decimal.rs/bigdecimal.rs/resolve.rs; '
         'num-bigint byte conversions and uuid text are modelled and validated, not verified; '
         'HashMap iteration order is a parameter (the value term lists entries in iteration order)',
